@@ -27,7 +27,7 @@ def run_cases(modname, fn, cases, procs=16):
 
 
 def run_fn(pid, ev, violations, machinery, emit_module, trace_module, runner, clause_property,
-           kind, emit_env=None, cap=None, nontrivial=None, extra_cases=None):
+           kind, emit_env=None, cap=None, nontrivial=None, extra_cases=None, derive=None):
     rng = random.Random(seed())
     cases = tlc.emit(emit_module, emit_env or {})
     total = len(cases)
@@ -36,6 +36,10 @@ def run_fn(pid, ev, violations, machinery, emit_module, trace_module, runner, cl
     if cap and len(cases) > cap:
         cases = rng.sample(cases, cap)
         ev.cov["exhaustive"] = False
+    if derive:                      # harness-level variants of the emitted cases (same expectation)
+        extra = derive(cases, rng)
+        ev.cov["runs"].append({"kind": "derived-cases", "module": emit_module, "cases": len(extra), "env": emit_env or {}})
+        cases = cases + extra
     ev.cov["runs"].append({"kind": "tlc-case-emission+theorems", "module": emit_module, "cases": total,
                            "env": emit_env or {}})
     ev.cov["states"] += max(total, 1)
